@@ -1,19 +1,33 @@
 (* C10 — the extracted / exported surface is the outward-oriented boundary.
-   Statements only; gen/FaceTables.v is regenerated from /repo on every run. *)
+   Statements only; gen/FaceTables.v is regenerated from /repo on every run.
+
+   Model (Model.v): all_faces m = rows of _generate_all_faces for every
+   element; surface_faces m = the rows whose sorted node tuple occurs once
+   (np.unique ... counts == 1); surface_sorted = in np.unique order;
+   extract_surface = storage positions; to_surface = ids, numbered;
+   surface_fistr; write_obj / read_obj.
+   Hypotheses are boolean predicates of the mesh:
+     wf_mesh m             node ids distinct, arity matches type, node references
+                           resolve, no element lists two faces on one node set
+     oriented_conforming m every face node-set is listed once, or twice with the
+                           second listing traversed the other way round
+   Nothing assumes connectivity: voids and several components are covered. *)
 From Coq Require Import List ZArith Bool Arith Reals.
 Import ListNotations.
 From FV.C10.gen Require Import FaceTables.
-From FV.C10 Require Import Model Groups ProofsTables ProofsGeom ProofsSurface.
+From FV.C10 Require Import Model Groups ProofsTables ProofsGeom ProofsSurface ProofsClosed ProofsViews.
 
 (* every translated face table (tet, tet2, pyr, prism, hex; hexprism too) is
-   closed: each directed edge occurs once and its reverse once *)
+   closed: each directed edge occurs once and its reverse once; indices are in
+   range; faces are triangles or quadrilaterals *)
 Theorem C10_table_closed :
   (forall t, table_closedb (used_cols t) (table t) = true)
   /\ table_closedb 12 (concat tbl_hexprism) = true.
 Proof. split; [exact table_closed_each | exact hexprism_closed]. Qed.
 
-(* on every affine image of the reference element each table face satisfies
-   (face centre - cell centre) . (vector area) = c * det M with c > 0 *)
+(* outward: on every affine image x |-> M x + t of the reference element each
+   table face satisfies (face centre - cell centre) . (vector area)
+   = c * det M with c > 0 (scaled by 2 * #cell nodes * #face nodes) *)
 Theorem C10_table_outward :
   forall t f, In f (table t) -> forall a : affine,
     outward2 ROps (map (aff a) (ref_cell t)) (pick_pts (map (aff a) (ref_cell t)) f)
@@ -21,13 +35,15 @@ Theorem C10_table_outward :
     /\ (0 < outward2 ROps (ref_cell t) (pick_pts (ref_cell t) f))%R.
 Proof. exact table_outward. Qed.
 
-(* the divergence sum over an element's faces is femio's volume kernel *)
+(* the divergence sum over an element's faces is femio's volume kernel of
+   that type (tet_like, hex/pyr/prism centroid), for all node positions *)
 Theorem C10_table_volume :
   forall (pos : Z -> RV3) t i c, length c = arity t ->
     enclosed24 ROps pos (faces_of t c) = elem_vol24 ROps pos (t, i, c).
 Proof. exact table_volume. Qed.
 
-(* the surface consists of exactly the faces that belong to one element *)
+(* the surface consists of exactly the element faces that belong to one
+   element only *)
 Theorem C10_surface_is_boundary :
   forall m, wf_mesh m = true ->
   forall f, In f (surface_sorted m) <-> In f (all_faces m) /\ length (owners f m) = 1.
@@ -35,11 +51,81 @@ Proof.
   intros m H f. rewrite surface_sorted_In. apply surface_is_boundary. exact H.
 Qed.
 
-(* the surface encloses the sum of the element volumes *)
+(* it is closed: every directed edge is used exactly as often as its reverse
+   (on a manifold boundary: once each, i.e. by two faces in opposite
+   directions; non-manifold contacts along an edge are allowed for) *)
+Theorem C10_surface_closed :
+  forall m, oriented_conforming m = true ->
+  forall e, count_edge e (surface_sorted m) = count_edge (swap e) (surface_sorted m).
+Proof.
+  intros m H e.
+  rewrite (count_edge_perm e _ _ (surface_sorted_perm m)),
+          (count_edge_perm (swap e) _ _ (surface_sorted_perm m)).
+  apply surface_closed. exact H.
+Qed.
+
+(* it encloses the sum of the element volumes, for all node positions *)
 Theorem C10_surface_volume :
   forall (pos : Z -> RV3) m, oriented_conforming m = true ->
     enclosed24 ROps pos (surface_sorted m) = mesh_vol24 ROps pos m.
 Proof. exact surface_volume. Qed.
 
+(* every surface face is a face of an element in the orientation of that
+   element's table (which C10_table_outward shows to be the outward one) *)
+Theorem C10_surface_faces_are_table_faces :
+  forall m f, In f (surface_sorted m) ->
+    exists e, In e (elems m) /\ In f (elem_faces e).
+Proof.
+  intros m f H. apply surface_sorted_In in H. unfold surface_faces in H.
+  apply singles_incl in H.
+  apply (Permutation.Permutation_in _ (groups_perm same_face (all_faces m))) in H.
+  unfold all_faces in H. apply in_flat_map in H. exact H.
+Qed.
+
+(* surface mesh object, positions returned by extract_surface and the OBJ
+   text describe the same face set; an OBJ file read back gives the same
+   vertices and faces *)
+Theorem C10_three_views_agree :
+  forall {C} (coords : list C) m t q s,
+    extract_surface m = Some (t, q) -> to_surface m = Some s ->
+    let r := read_obj (write_obj coords t q) in
+    let back := fun fs => indices2ids (m_nodes m) (map (map (fun z => Z.to_nat (z - 1))) (map snd fs)) in
+    back (o_tri r) = Some (map snd (s_tri s)) /\ back (o_quad r) = Some (map snd (s_quad s))
+    /\ map snd (s_tri s) = fst (surface_ids m) /\ map snd (s_quad s) = snd (surface_ids m)
+    /\ o_polygon r = [] /\ map snd (o_nodes r) = coords.
+Proof. intros C. exact (@three_views_agree C). Qed.
+
+Theorem C10_obj_roundtrip :
+  forall {C} (coords : list C) tri quad,
+    Forall (fun f => length f = 3) tri -> Forall (fun f => length f = 4) quad ->
+    read_obj (write_obj coords tri quad)
+    = {| o_nodes := number_from 1%Z coords;
+         o_tri := number_from 1%Z (map face1 tri);
+         o_quad := number_from (1 + Z.of_nat (length tri))%Z (map face1 quad);
+         o_polygon := [] |}.
+Proof. intros C. exact (@obj_roundtrip C). Qed.
+
+(* (element id, face number) view for tetrahedra.
+   Full statement:  for a well-formed tet/tet2 mesh, (i, n) is a row of
+   surface_fistr m  <->  element i exists and its face number n (node set of
+   the n-th row of the tet table) is a surface face.
+   Proved part: the face-number table of extract_surface_fistr lists, at
+   position n, the node set of the n-th face of the tet table, numbers 1..4.
+   The lifting to meshes is covered by the correspondence check only. *)
+Theorem C10_fistr_view_partial :
+  map (fun nf => (fst nf, sort_nat (snd nf))) tbl_fistr
+  = combine (seq 1 4) (map sort_nat (table Tet)).
+Proof. exact fistr_numbers_match. Qed.
+
+(* non-vacuity: two tetrahedra glued along a face, ids sparse and unsorted *)
+Definition ex_mesh : mesh :=
+  {| m_nodes := [40; 7; 19; 3; 88]%Z;
+     m_blocks := [(Tet, [(5, [7; 19; 3; 40]); (2, [19; 7; 3; 88])]%Z)] |}.
+Example C10_hypotheses_satisfiable :
+  wf_mesh ex_mesh = true /\ oriented_conforming ex_mesh = true
+  /\ length (all_faces ex_mesh) = 8 /\ length (surface_sorted ex_mesh) = 6.
+Proof. vm_compute. repeat split. Qed.
+
 Print Assumptions C10_table_outward.
 Print Assumptions C10_surface_volume.
+Print Assumptions C10_surface_closed.
